@@ -582,8 +582,9 @@ def r3_iteration_order(ctx, F):
 
 
 # ---- R5: who may look at the representation (seed C08-7: a mod-flag cache with a `GameMods::Legacy` fast path in the osu! performance calculator)
-def r5_representation_private(ctx, F):
-    n = 0
+def _representation_inspectors(F):
+    """(inside, outside): functions that read the discriminant of a GameMods value, split by whether they belong to model::mods"""
+    inside, outside = [], []
     for fn in F.fns:
         locs = (fn.j.get('mir') or {}).get('locals') or []
         sites = []
@@ -596,14 +597,27 @@ def r5_representation_private(ctx, F):
                         sites.append(s_.get('ln'))
         if not sites:
             continue
-        inside = fn.path.startswith('model::mods::') or (fn.self_adt == GM) or ('<' + GM + ' as ') in fn.path
-        if inside:
-            n += 1
-            continue
+        if fn.path.startswith('model::mods::') or (fn.self_adt == GM) or ('<' + GM + ' as ') in fn.path:
+            inside.append((fn, sites))
+        else:
+            outside.append((fn, sites))
+    return inside, outside
+
+
+def r5_representation_private(ctx, F):
+    inside, outside = _representation_inspectors(F)
+    for fn, sites in outside:
         ctx.saw(fn)
         ctx.violation('C08-R5', 'inspects:' + fn.path, '%s matches on the representation of GameMods (Lazer / Intermode / Legacy) itself: outside model::mods a value must be asked '
                       'through the accessors, which are compared across the three spellings (C08-R1); a per-representation branch here can answer differently for the same mods' % fn.path,
                       fn.where(sites[0]))
+    n = len(inside)
     ctx.floor('C08-R5', n, 3, 'functions of model::mods that switch on the GameMods representation (28 today; a shared lookup helper may leave only a few)')
     if n:
         ctx.ok('C08-R5', 'representation-private', 'the GameMods variant is inspected by %d functions, all inside model::mods' % n)
+    # the expected count outside is zero: the fixture crate keeps one offender and one accessor-only caller
+    fi, fo = _representation_inspectors(ctx.fixture())
+    names = {f_.path for f_, _ in fo}
+    ctx.control('C08-R5', 'c08::peeks_at_representation' in names, 'a function outside model::mods that matches on GameMods::Legacy')
+    ctx.control('C08-R5', 'c08::asks_the_accessor' not in names and any(f_.path.endswith('GameMods::rx') for f_, _ in fi),
+                'negative control: the accessor inside model::mods and its caller are not reported')
